@@ -731,6 +731,7 @@ package opset13
 //@   modifies opstate(self)
 //@   before Argmax assert axis_normalised: axis == normax(self.axis, rank(inputs[0]))
 //@   ensures axis_out_of_range_refused: self.axis < 0 - rank(inputs[0]) || self.axis >= rank(inputs[0]) ==> err != nil
+//@   ensures attributes_unchanged: self.axis == old(self.axis) && self.keepDims == old(self.keepDims)
 //@   ensures int64_indices: err == nil ==> len(result) == 1 && result[0] != nil && fresh(result[0]) && dtype(result[0]) == Int64
 //@   ensures keepdims_shape: err == nil && self.keepDims ==> rank(result[0]) == rank(inputs[0]) && dim(result[0], normax(self.axis, rank(inputs[0]))) == 1 &&
 //@          (forall k :: 0 <= k && k < rank(inputs[0]) && k != normax(self.axis, rank(inputs[0])) ==> dim(result[0], k) == dim(inputs[0], k))
@@ -746,6 +747,8 @@ package opset13
 //@   modifies opstate(self)
 //@   before SoftMax assert axis_normalised: axis == normax(self.axis, rank(inputs[0])) && 0 <= axis && axis < rank(inputs[0])
 //@   ensures axis_out_of_range_refused: self.axis < 0 - rank(inputs[0]) || self.axis >= rank(inputs[0]) ==> err != nil
+//@   ensures valid_axis_passes_the_range_check: 0 - rank(inputs[0]) <= self.axis && self.axis < rank(inputs[0]) ==> err == nil || !errIs(err, ErrAxisNotInRange)
+//@   ensures attributes_unchanged: self.axis == old(self.axis)
 //@   ensures same_shape_and_type: err == nil ==> len(result) == 1 && result[0] != nil && fresh(result[0]) && same_shape(result[0], inputs[0]) && dtype(result[0]) == dtype(inputs[0])
 
 //@ func (*LogSoftmax).Apply
@@ -755,6 +758,8 @@ package opset13
 //@   modifies opstate(self)
 //@   before LogSoftMax assert axis_normalised: axis == normax(self.axis, rank(inputs[0])) && 0 <= axis && axis < rank(inputs[0])
 //@   ensures axis_out_of_range_refused: self.axis < 0 - rank(inputs[0]) || self.axis >= rank(inputs[0]) ==> err != nil
+//@   ensures valid_axis_passes_the_range_check: 0 - rank(inputs[0]) <= self.axis && self.axis < rank(inputs[0]) ==> err == nil || !errIs(err, ErrAxisNotInRange)
+//@   ensures attributes_unchanged: self.axis == old(self.axis)
 //@   ensures same_shape_and_type: err == nil ==> len(result) == 1 && result[0] != nil && fresh(result[0]) && same_shape(result[0], inputs[0]) && dtype(result[0]) == dtype(inputs[0])
 
 //@ spec reduce_axes_ok(axes []int, r int) bool = len(axes) >= 1 && (forall k :: 0 <= k && k < len(axes) ==> 0 - r <= axes[k] && axes[k] < r) &&
@@ -773,6 +778,7 @@ package opset13
 //@   before Max assert same_count: forall i :: 0 <= i && i <= rank(inputs[0]) ==>
 //@          (nkcong(arr(axes), off(axes), len(axes), 0, arr(self.axes), off(self.axes), len(self.axes), rank(inputs[0]), i) || !nkcong(arr(axes), off(axes), len(axes), 0, arr(self.axes), off(self.axes), len(self.axes), rank(inputs[0]), i)) &&
 //@          nk(axes, 0, i) == nk(self.axes, rank(inputs[0]), i)
+//@   ensures attributes_unchanged: sameslice(self.axes, old(self.axes)) && self.keepDims == old(self.keepDims) && (forall k :: 0 <= k && k < len(self.axes) ==> self.axes[k] == old(self.axes[k]))
 //@   ensures same_type: err == nil ==> len(result) == 1 && result[0] != nil && fresh(result[0]) && dtype(result[0]) == dtype(inputs[0])
 //@   ensures keepdims_shape: err == nil && self.keepDims ==> rank(result[0]) == rank(inputs[0]) &&
 //@          (forall i :: 0 <= i && i < rank(inputs[0]) ==> dim(result[0], i) == ite(ismemb(self.axes, rank(inputs[0]), i), 1, dim(inputs[0], i)))
@@ -798,6 +804,7 @@ package opset13
 //@   before Min assert same_count: forall i :: 0 <= i && i <= rank(inputs[0]) ==>
 //@          (nkcong(arr(axes), off(axes), len(axes), 0, arr(self.axes), off(self.axes), len(self.axes), rank(inputs[0]), i) || !nkcong(arr(axes), off(axes), len(axes), 0, arr(self.axes), off(self.axes), len(self.axes), rank(inputs[0]), i)) &&
 //@          nk(axes, 0, i) == nk(self.axes, rank(inputs[0]), i)
+//@   ensures attributes_unchanged: sameslice(self.axes, old(self.axes)) && self.keepDims == old(self.keepDims) && (forall k :: 0 <= k && k < len(self.axes) ==> self.axes[k] == old(self.axes[k]))
 //@   ensures same_type: err == nil ==> len(result) == 1 && result[0] != nil && fresh(result[0]) && dtype(result[0]) == dtype(inputs[0])
 //@   ensures keepdims_shape: err == nil && self.keepDims ==> rank(result[0]) == rank(inputs[0]) &&
 //@          (forall i :: 0 <= i && i < rank(inputs[0]) ==> dim(result[0], i) == ite(ismemb(self.axes, rank(inputs[0]), i), 1, dim(inputs[0], i)))
@@ -836,3 +843,77 @@ package opset13
 //@   ensures no_axes_means_all_axes: len(n.Attribute) == 0 ==> err == nil
 //@   ensures unknown_attribute_refused: (exists k :: 0 <= k && k < len(n.Attribute) && n.Attribute[k].Name != "axes" && n.Attribute[k].Name != "keepdims") ==> err != nil
 //@   loop 1 invariant forall k :: 0 <= k && k < $i ==> (n.Attribute[k].Name == "axes" || n.Attribute[k].Name == "keepdims")
+
+// ---------------------------------------------------------------------------------------
+// C08 (partly): Transpose, Concat, Expand select the ONNX-indexed data (shapes, axis handling,
+// refusals; the data movement itself is gorgonia's Transpose / Concat / Repeat). Slice and Gather
+// are not under contract.
+
+//@ func (*Transpose).Init
+//@   tags C08,C02
+//@   requires self != nil && n != nil
+//@   scope new_operator: self.perm == nil && (forall k :: 0 <= k && k < len(n.Attribute) ==> n.Attribute[k] != nil)
+//@   modifies opstate(self)
+//@   ensures attribute_count_refused: len(n.Attribute) != 1 ==> err != nil
+//@   ensures other_attribute_refused: len(n.Attribute) == 1 && n.Attribute[0].Name != "perm" ==> err != nil
+//@   ensures perm_stored_in_order: len(n.Attribute) == 1 && n.Attribute[0].Name == "perm" ==> err == nil && len(self.perm) == len(n.Attribute[0].Ints) &&
+//@          (forall k :: 0 <= k && k < len(n.Attribute[0].Ints) ==> self.perm[k] == n.Attribute[0].Ints[k])
+//@   loop 1 invariant len(self.perm) == $i && (self.perm == nil || fresh(self.perm)) && (forall k :: 0 <= k && k < $i ==> self.perm[k] == $range[k])
+
+//@ spec is_permutation(p []int, r int) bool = len(p) == r && (forall i :: 0 <= i && i < r ==> 0 <= p[i] && p[i] < r) &&
+//@        (forall i, j :: 0 <= i && i < j && j < r ==> p[i] != p[j])
+
+//@ func (*Transpose).Apply
+//@   tags C08,C02
+//@   requires self != nil && len(inputs) == 1 && inputs[0] != nil
+//@   scope extents_positive: dims_positive(inputs[0])
+//@   modifies opstate(self)
+//@   ensures not_a_permutation_refused: !is_permutation(self.perm, rank(inputs[0])) ==> err != nil
+//@   ensures permutation_accepted: is_permutation(self.perm, rank(inputs[0])) ==> err == nil
+//@   ensures permuted_shape: err == nil ==> len(result) == 1 && result[0] != nil && fresh(result[0]) && rank(result[0]) == rank(inputs[0]) && dtype(result[0]) == dtype(inputs[0]) &&
+//@          (forall k :: 0 <= k && k < rank(inputs[0]) ==> dim(result[0], k) == dim(inputs[0], self.perm[k]))
+
+//@ func (*Concat).Init
+//@   tags C08,C02
+//@   requires self != nil && n != nil
+//@   scope attributes_present: forall k :: 0 <= k && k < len(n.Attribute) ==> n.Attribute[k] != nil
+//@   modifies opstate(self)
+//@   ensures attribute_count_refused: len(n.Attribute) != 1 ==> err != nil
+//@   ensures axis_stored: len(n.Attribute) == 1 ==> err == nil && self.axis == n.Attribute[0].I
+
+//@ func (*Concat).Apply
+//@   tags C08,C02
+//@   requires self != nil && len(inputs) >= 1 && (forall k :: 0 <= k && k < len(inputs) ==> inputs[k] != nil)
+//@   scope extents_positive: dims_positive(inputs[0])
+//@   modifies opstate(self)
+//@   before Concat assert axis_normalised: axis == normax(self.axis, rank(inputs[0]))
+//@   ensures single_input_returned: len(inputs) == 1 ==> err == nil && len(result) == 1 && result[0] == inputs[0]
+//@   ensures axis_out_of_range_refused: len(inputs) >= 2 && (self.axis < 0 - rank(inputs[0]) || self.axis >= rank(inputs[0])) ==> err != nil
+//@   ensures concatenated_shape: len(inputs) >= 2 && err == nil ==> len(result) == 1 && result[0] != nil && fresh(result[0]) && rank(result[0]) == rank(inputs[0]) && dtype(result[0]) == dtype(inputs[0]) &&
+//@          (forall k :: 0 <= k && k < rank(inputs[0]) && k != normax(self.axis, rank(inputs[0])) ==> dim(result[0], k) == dim(inputs[0], k)) &&
+//@          dim(result[0], normax(self.axis, rank(inputs[0]))) >= dim(inputs[0], normax(self.axis, rank(inputs[0])))
+
+//@ spec tdim(s tensor.Tensor, n int, k int) int = ite(k - (n - blen(s)) >= 0, telem(s, "int64", k - (n - blen(s))), 1)
+//@ spec expand_n(t tensor.Tensor, s tensor.Tensor) int = maxi(rank(t), blen(s))
+//@ spec expand_target_ok(t tensor.Tensor, s tensor.Tensor) bool = (forall k :: 0 <= k && k < blen(s) ==> telem(s, "int64", k) >= 1) &&
+//@        (forall k :: 0 <= k && k < expand_n(t, s) ==> adim(t, expand_n(t, s), k) == tdim(s, expand_n(t, s), k) || adim(t, expand_n(t, s), k) == 1 || tdim(s, expand_n(t, s), k) == 1)
+
+//@ func (*Expand).Apply
+//@   tags C08,C02
+//@   requires self != nil && len(inputs) == 2 && inputs[0] != nil && inputs[1] != nil
+//@   scope validated: dims_positive(inputs[0]) && dtype(inputs[1]) == Int64 && rank(inputs[1]) == 1
+//@   modifies opstate(self)
+//@   before Repeat assert one_side_is_unit: expand_target_ok(inputs[0], inputs[1]) ==> dim(input, axis) == 1 || shape[axis] == 1
+//@   ensures broadcast_shape: expand_target_ok(inputs[0], inputs[1]) ==> err == nil && len(result) == 1 && result[0] != nil && rank(result[0]) == expand_n(inputs[0], inputs[1]) && dtype(result[0]) == dtype(inputs[0]) &&
+//@          (forall k :: 0 <= k && k < expand_n(inputs[0], inputs[1]) ==> dim(result[0], k) == bdim(adim(inputs[0], expand_n(inputs[0], inputs[1]), k), tdim(inputs[1], expand_n(inputs[0], inputs[1]), k)))
+//@   ensures incompatible_refused: (forall k :: 0 <= k && k < blen(inputs[1]) ==> telem(inputs[1], "int64", k) >= 1) && !expand_target_ok(inputs[0], inputs[1]) ==> err != nil
+//@   loop 1 invariant input != nil && dtype(input) == dtype(inputs[0]) && rank(input) == expand_n(inputs[0], inputs[1]) && blen(inputs[1]) <= len(shape) && len(shape) <= expand_n(inputs[0], inputs[1]) &&
+//@          (shape == nil || fresh(shape)) && (forall k :: 0 <= k && k < expand_n(inputs[0], inputs[1]) ==> dim(input, k) == adim(inputs[0], expand_n(inputs[0], inputs[1]), k))
+//@   loop 1 invariant forall k :: 0 <= k && k < len(shape) ==> shape[k] == tdim(inputs[1], len(shape), k)
+//@   loop 2 invariant 0 - 1 <= axis && axis < len(shape) && input != nil && dtype(input) == dtype(inputs[0]) && rank(input) == len(shape) && len(shape) == expand_n(inputs[0], inputs[1]) &&
+//@          (forall k :: 0 <= k && k < len(shape) ==> shape[k] == tdim(inputs[1], len(shape), k))
+//@   loop 2 invariant forall k :: axis < k && k < len(shape) ==> dim(input, k) == bdim(adim(inputs[0], len(shape), k), shape[k]) &&
+//@          (adim(inputs[0], len(shape), k) == shape[k] || adim(inputs[0], len(shape), k) == 1 || shape[k] == 1)
+//@   loop 2 invariant forall k :: 0 <= k && k <= axis ==> dim(input, k) == adim(inputs[0], len(shape), k)
+//@   loop 2 exit assert every_axis_was_compatible: forall k :: 0 <= k && k < expand_n(inputs[0], inputs[1]) ==>
+//@          adim(inputs[0], expand_n(inputs[0], inputs[1]), k) == tdim(inputs[1], expand_n(inputs[0], inputs[1]), k) || adim(inputs[0], expand_n(inputs[0], inputs[1]), k) == 1 || tdim(inputs[1], expand_n(inputs[0], inputs[1]), k) == 1
